@@ -46,6 +46,7 @@ type c07case struct {
 	gapmode              int
 	rmamb                bool
 	weights              []dyadic
+	ranges               *[4]int // nil = the usual half matrix
 	useWeights           bool
 	class                string
 	matrix               [][]float64
@@ -76,7 +77,11 @@ func runDist(cs *c07case, cpus int) (mat [][]float64, class string) {
 		case *dna.RawDistModel:
 			mm.SetCountGapMutations(cs.gapmode)
 		}
-		mat, e = dna.DistMatrix(a, ws, m, -1, -1, -1, -1, cs.gamma, cs.alpha.f(), cpus)
+		rg := [4]int{-1, -1, -1, -1}
+		if cs.ranges != nil {
+			rg = *cs.ranges
+		}
+		mat, e = dna.DistMatrix(a, ws, m, rg[0], rg[1], rg[2], rg[3], cs.gamma, cs.alpha.f(), cpus)
 		return e
 	})
 	return
@@ -110,10 +115,19 @@ func genC07(r *rand.Rand) *c07case {
 	cs.names = distinctNames(r, nseq)
 	base := randSeq(r, L, func(r *rand.Rand) byte { return "ACGT"[r.Intn(4)] })
 	cs.seqs = make([]string, nseq)
-	mode := r.Intn(6)
+	mode := r.Intn(7)
+	if mode == 6 { // boundary: exactly 3/4 of the sites differ between rows 0 and 1 (JC69 argument exactly 0: +Inf)
+		L = 4 * (1 + r.Intn(5))
+		base = randSeq(r, L, func(r *rand.Rand) byte { return "ACGT"[r.Intn(4)] })
+		if nseq < 3 {
+			nseq = 3
+			cs.names = distinctNames(r, nseq)
+			cs.seqs = make([]string, nseq)
+		}
+	}
 	for k := range cs.seqs {
 		b := []byte(base)
-		rate := []int{0, 8, 4, 2, 1, 1}[mode] // 1/rate of the sites mutated; 0 = identical
+		rate := []int{0, 8, 4, 2, 1, 1, 8}[mode] // 1/rate of the sites mutated; 0 = identical
 		for j := range b {
 			if rate > 0 && r.Intn(rate) == 0 {
 				b[j] = "ACGT"[r.Intn(4)]
@@ -133,7 +147,14 @@ func genC07(r *rand.Rand) *c07case {
 				b[j] = map[byte]byte{'A': 'C', 'C': 'A', 'G': 'T', 'T': 'G'}[base[j]]
 			}
 		}
-		if r.Intn(6) == 0 { // leading / trailing gap runs
+		if mode == 6 && k < 2 {
+			b = []byte(base)
+			if k == 1 {
+				for _, j := range r.Perm(L)[:3*L/4] {
+					b[j] = map[byte]byte{'A': 'C', 'C': 'G', 'G': 'T', 'T': 'A'}[base[j]]
+				}
+			}
+		} else if r.Intn(6) == 0 { // leading / trailing gap runs
 			g := 1 + r.Intn(3)
 			for j := 0; j < g && j < L; j++ {
 				if r.Intn(2) == 0 {
@@ -149,6 +170,9 @@ func genC07(r *rand.Rand) *c07case {
 		cs.seqs[0] = cs.seqs[0][:L-1] + "?" // no code: error
 	}
 	cs.model = r.Intn(7)
+	if mode == 6 && r.Intn(2) == 0 {
+		cs.model = 2
+	}
 	cs.gamma = r.Intn(3) == 0
 	cs.alpha = []dyadic{{1, 2}, {1, 1}, {2, 1}, {3, 4}}[r.Intn(4)]
 	cs.rmgaps = r.Intn(3) == 0
